@@ -188,9 +188,15 @@ class Int:
             if set(o.t) <= {frozenset()}:
                 o = o.t.get(frozenset(), self.sp.const(0))
             else:
-                raise Unsupported("division by an integral")
+                return Quot(self.sp, self, o)
         o = self.sp.const(o)
         return self * (1 / o)
+
+    def __rtruediv__(self, o):
+        # x / integral: a quotient (kept formal)
+        if isinstance(o, (Int, Quot)):
+            raise Unsupported("quotient of integrals")
+        return Quot(self.sp, self.sp.const(o), self)
 
     def summed(self, dims):
         dims = frozenset(dims)
@@ -218,7 +224,60 @@ class Int:
         return " + ".join((("Σ_" + ",".join(sorted(d.name for d in k)) + "[" + repr(v) + "]") if k else repr(v)) for k, v in self.t.items()) or "0"
 
 
+class Quot:
+    """num / den with den a complete integral (a number per mesh, e.g. the total measure): what a weighted mean is made of.  num: X or Int"""
+    __slots__ = ("sp", "num", "den")
+
+    def __init__(self, sp, num, den):
+        self.sp, self.num, self.den = sp, num, den
+
+    def _scale(self, o):
+        if isinstance(o, (Int, Quot)):
+            raise Unsupported("product of a quotient of integrals with an integral")
+        return Quot(self.sp, self.num * o, self.den)
+
+    __mul__ = __rmul__ = _scale
+
+    def __truediv__(self, o):
+        if isinstance(o, (Int, Quot)):
+            raise Unsupported("quotient of quotients of integrals")
+        return Quot(self.sp, self.num / o, self.den)
+
+    def __neg__(self):
+        return Quot(self.sp, -self.num, self.den)
+
+    def _add(self, o, sgn):
+        if isinstance(o, Quot) and o.den == self.den:
+            return Quot(self.sp, self.num + sgn * o.num, self.den)
+        if not isinstance(o, Quot) and Int.lift(self.sp, o) == 0:
+            return self
+        raise Unsupported("sum of quotients with different denominators")
+
+    def __add__(self, o): return self._add(o, 1)
+    __radd__ = __add__
+    def __sub__(self, o): return self._add(o, -1)
+
+    def summed(self, dims):
+        return Quot(self.sp, Int.lift(self.sp, self.num).summed(dims), self.den)
+
+    def __eq__(self, o):
+        if isinstance(o, Quot):
+            return bool(self.den == o.den) and bool(Int.lift(self.sp, self.num) == Int.lift(self.sp, o.num))
+        return NotImplemented
+
+    def __ne__(self, o):
+        r = self.__eq__(o)
+        return r if r is NotImplemented else not r
+
+    __hash__ = None
+
+    def __repr__(self):
+        return f"({self.num!r}) / ({self.den!r})"
+
+
 def _summed(sp, v, dims):
+    if isinstance(v, Quot):
+        return v.summed(dims)
     return Int.lift(sp, v).summed(dims)
 
 
